@@ -54,6 +54,8 @@ type parentState struct {
 	evals     int64
 	trips     int64
 	precise   int64
+	trivial   int64
+	lpSamples int
 	cases     int64
 	skipped   int64
 	sigs      map[string]int64
@@ -91,7 +93,7 @@ func (ps *parentState) addViol(v violation) {
 	k := v.Clause + "|" + v.Key
 	if f, ok := ps.viols[k]; ok {
 		f.count++
-		if v.Len < f.v.Len || (v.Len == f.v.Len && v.Input < f.v.Input) {
+		if len(v.Hist) < len(f.v.Hist) || (len(v.Hist) == len(f.v.Hist) && (v.Len < f.v.Len || (v.Len == f.v.Len && v.Input < f.v.Input))) {
 			f.v = v
 		}
 		return
@@ -119,6 +121,9 @@ func (ps *parentState) merge(r *result, fam string) {
 	if f, ok := r.Extra["precise"].(float64); ok {
 		ps.precise += int64(f)
 	}
+	if f, ok := r.Extra["trivial"].(float64); ok {
+		ps.trivial += int64(f)
+	}
 	if fc := ps.perFamily[fam]; fc != nil {
 		fc.Done += r.Cases
 		fc.Evals += r.Evals
@@ -126,6 +131,15 @@ func (ps *parentState) merge(r *result, fam string) {
 	}
 	ps.mu.Unlock()
 	for _, s := range r.Samples {
+		if strings.HasPrefix(s, "n=") { // link-service samples: keep a few, leave room for the decoders
+			ps.mu.Lock()
+			ps.lpSamples++
+			n := ps.lpSamples
+			ps.mu.Unlock()
+			if n > 3 {
+				continue
+			}
+		}
 		ps.samples.Offer(s)
 	}
 	for _, v := range r.Viol {
@@ -147,7 +161,7 @@ func parent() {
 	start := time.Now()
 	rep := report.New("C04", "exploration")
 	thorough := rep.Thorough()
-	budget := 95 * time.Second
+	budget := 80 * time.Second
 	if thorough {
 		budget = 26 * time.Minute
 	}
@@ -155,6 +169,12 @@ func parent() {
 
 	bin, models := buildWorker()
 	tBuild := time.Since(start)
+	buildLpAlphabet(thorough)
+	for i, a := range os.Args {
+		if a == "--replay" && i+1 < len(os.Args) {
+			os.Exit(replay(bin, os.Args[i+1]))
+		}
+	}
 
 	ps := &parentState{rep: rep, viols: map[string]*foundViol{}, confirmed: map[string]bool{}, sigs: map[string]int64{},
 		distinct: map[uint64]struct{}{}, grpDeaths: map[string]int{}, grpDead: map[string]bool{}, perFamily: map[string]*famCov{}}
@@ -260,9 +280,17 @@ func parent() {
 	}
 	lpc.Tasks = len(lpJobs)
 	// order: small families first, the big odometer families last
-	sort.SliceStable(jobs, func(i, j int) bool {
-		return d.Families[jobs[i].t.Family].Size < d.Families[jobs[j].t.Family].Size
-	})
+	work := map[int]int64{}
+	for fi, f := range d.Families {
+		for _, g := range f.Groups {
+			w := int64(0)
+			for _, ei := range g.Entries {
+				w += weightOf(ei)
+			}
+			work[fi] += (g.Hi - g.Lo) * w
+		}
+	}
+	sort.SliceStable(jobs, func(i, j int) bool { return work[jobs[i].t.Family] < work[jobs[j].t.Family] })
 	all := append(lpJobs, jobs...)
 
 	var wg sync.WaitGroup
@@ -285,7 +313,7 @@ func parent() {
 	bfsCov := <-bfsDone
 
 	// ---- attribution of allocation sites ----
-	attrCov := runAttribution(pool, ps, deadline.Add(60*time.Second))
+	attrCov := runAttribution(pool, ps, deadline.Add(20*time.Second))
 
 	// ---- report ----
 	keys := make([]string, 0, len(ps.viols))
@@ -297,7 +325,7 @@ func parent() {
 		f := ps.viols[k]
 		rep.Add(report.Violation{Clause: f.v.Clause, Key: f.v.Key,
 			Detail: fmt.Sprintf("%s | entry %s | case: %s | input(%d bytes)=%s | seen %d times", f.v.Detail, f.v.Entry, f.v.Case, f.v.Len, f.v.Input, f.count),
-			Replay: map[string]any{"entry": f.v.Entry, "entry_index": f.v.EntryI, "family": f.v.Family, "index": f.v.Index, "case": f.v.Case, "input_hex": f.v.Input}})
+			Replay: map[string]any{"entry": f.v.Entry, "entry_index": f.v.EntryI, "family": f.v.Family, "index": f.v.Index, "case": f.v.Case, "input_hex": f.v.Input, "hist": f.v.Hist, "cfg": f.v.Cfg, "tier": rep.Tier}})
 	}
 	nontrivial := 0
 	for dk := range ps.distinct {
@@ -325,7 +353,8 @@ func parent() {
 		"evaluations":               ps.evals,
 		"cases":                     ps.cases,
 		"distinct_nontrivial":       nontrivial,
-		"rule":                      "number of distinct (entry point, outcome signature) pairs observed, outcome signature = ok / error type with the TLV type number it names / panic / (for the link service) dropped|dispatched|stored per fragment kind; pairs whose outcome is a plain end-of-input before a TLV header was read are not counted",
+		"rule":                      "cases are (entry point, input) pairs enumerated by odometers (no repeats inside a family); an evaluation is trivial when the decoder stops with end-of-input before it has read one TLV header. Distinctness of the hundreds of millions of non-trivial cases is not stored, so distinct_nontrivial is the conservative, measured number of distinct (entry point, outcome signature) pairs observed among them (outcome signature = ok / error type with the TLV type number it names / panic / for the link service dropped|dispatched|stored per fragment kind); nontrivial_evaluations is the raw count",
+		"nontrivial_evaluations":    ps.evals - ps.trivial,
 		"samples":                   ps.samples.List(),
 		"exhaustive":                exhaustive,
 		"generated_parsers":         len(models),
@@ -351,7 +380,7 @@ func parent() {
 		"alloc_single_measurements": ps.precise,
 	}
 	assumptions := []string{
-		"input space is the stated finite families (all byte strings of length <=2 everywhere and length 3 on the hand-listed decoders [quick] / core entries [thorough]; all strings over the 21-symbol TLV alphabet up to length 5/6; every single structure-aware mutation of every seed; pairs for packet-level seeds in thorough; LpPacket header products); longer or differently shaped inputs are not covered",
+		"input space is the stated finite families (all byte strings of length <=2 on every entry; all 3-byte strings on the byte-level decoders [quick] / every decoder with the contiguous reader [thorough]; all strings over the 21-symbol TLV alphabet up to length 4 on the core entries and length 5 [quick] / 5-6 [thorough] on every decoder; every single structure-aware mutation of every seed; pairs for packet-level seeds in thorough; LpPacket header products; frame sequences to depth 2/3); longer or differently shaped inputs are not covered",
 		"allocation is measured as runtime.MemStats.TotalAlloc growth of the single-threaded worker (exact: mcaches are flushed); an input-independent allocation of an entry (e.g. the 281600-byte stream buffer) is measured on the empty input and not charged",
 		"a worker death is attributed through the worker's progress marker and believed only after the single case reproduces it in 3 fresh workers; after " + fmt.Sprint(groupDeathLimit) + " deaths in one family group the rest of the group is abandoned (exhaustive=false)",
 		"hangs: a call that does not return within 20 s (60 s x3 on confirmation) or, for the scripted stream readers, 100000 consecutive zero-length reads",
@@ -414,6 +443,9 @@ func runAttribution(pool *pool, ps *parentState, deadline time.Time) map[string]
 			if res != nil && len(res.Viol) > 0 {
 				for _, nv := range res.Viol {
 					nv.Case, nv.Input, nv.Len = v.Case, v.Input, v.Len
+					if v.EntryI < 0 || v.Family < 0 { // a link-service history: keep its own replay coordinates
+						nv.Hist, nv.Cfg, nv.Family, nv.Index, nv.Entry, nv.EntryI = v.Hist, v.Cfg, v.Family, v.Index, v.Entry, v.EntryI
+					}
 					ps.addViol(nv)
 				}
 				done++
@@ -440,10 +472,7 @@ func runBFS(pool *pool, ps *parentState, d *describeResponse, thorough bool, dea
 	if thorough {
 		depth = 3
 	}
-	cfgs := []int{1} // n=2, non-local
-	if thorough {
-		cfgs = []int{1, 4}
-	}
+	cfgs := []int{1} // n=2, non-local (the local face differs only in how Data without a token is dispatched: covered by the single-frame product)
 	cov := map[string]any{"depth": depth, "alphabet": d.LpFrames, "exhaustive": true}
 	var idMu sync.Mutex
 	newID := func() int64 { idMu.Lock(); defer idMu.Unlock(); *nextID++; return *nextID + 1000000 }
@@ -533,4 +562,79 @@ func runBFS(pool *pool, ps *parentState, d *describeResponse, thorough bool, dea
 func mustJSON(v any) string {
 	b, _ := json.Marshal(v)
 	return string(b)
+}
+
+// replay re-executes the single case of a replay file in a fresh worker (three times) and prints
+// what it does. Exit status 1 if the recorded clause/key is reported again.
+func replay(bin, path string) int {
+	raw, err := os.ReadFile(path)
+	if err != nil {
+		report.Fatal("cannot read replay file: %v", err)
+	}
+	var rf struct {
+		Clause string `json:"clause"`
+		Key    string `json:"key"`
+		Replay struct {
+			Entry  string  `json:"entry"`
+			EntryI int     `json:"entry_index"`
+			Family int     `json:"family"`
+			Index  int64   `json:"index"`
+			Hist   []int64 `json:"hist"`
+			Cfg    int     `json:"cfg"`
+			Tier   string  `json:"tier"`
+		} `json:"replay"`
+	}
+	if err := json.Unmarshal(raw, &rf); err != nil {
+		report.Fatal("bad replay file: %v", err)
+	}
+	if rf.Replay.Tier != "" {
+		os.Setenv("VERIF_TIER", rf.Replay.Tier) // family indices are tier specific
+	}
+	ps := &parentState{viols: map[string]*foundViol{}, confirmed: map[string]bool{}, sigs: map[string]int64{}, distinct: map[uint64]struct{}{},
+		grpDeaths: map[string]int{}, grpDead: map[string]bool{}, perFamily: map[string]*famCov{}}
+	pool := newPool(bin, 1, ps)
+	defer pool.shutdown()
+	var t task
+	if len(rf.Replay.Hist) > 0 {
+		t = task{ID: 11, Kind: "lphist", N: rf.Replay.Cfg, Hist: rf.Replay.Hist, Only: -1}
+	} else {
+		t = task{ID: 11, Kind: "enum", Family: rf.Replay.Family, Lo: rf.Replay.Index, Hi: rf.Replay.Index + 1, Only: rf.Replay.EntryI}
+	}
+	again := 0
+	for i := 0; i < 3; i++ {
+		o, err := pool.runOnce(t, nil, hangConfirm, false)
+		switch {
+		case err != nil:
+			fmt.Printf("REPLAY run %d: error %v\n", i+1, err)
+		case o.died || o.hung:
+			c, k, d := classifyDeath(o, rf.Replay.Entry)
+			fmt.Printf("REPLAY run %d: worker died/hung: %s %q (%s)\n", i+1, c, k, d)
+			if c == rf.Clause {
+				again++
+			}
+		default:
+			hit := false
+			for _, v := range o.res.Viol {
+				fmt.Printf("REPLAY run %d: %s %q :: %s\n", i+1, v.Clause, v.Key, v.Detail)
+				if v.Clause == rf.Clause && (v.Key == rf.Key || v.NeedAt) {
+					hit = true
+				}
+			}
+			if len(o.res.Viol) == 0 {
+				fmt.Printf("REPLAY run %d: no violation; %v %v\n", i+1, o.res.Sigs, o.res.Samples)
+			}
+			if hit {
+				again++
+			}
+		}
+	}
+	if again == 3 {
+		fmt.Printf("VIOLATION property=C04 replay=%s clause=%s key=%q :: reproduced 3/3\n", path, rf.Clause, rf.Key)
+		return 1
+	}
+	fmt.Printf("REPLAY property=C04 %s: recorded violation reproduced %d/3 times\n", path, again)
+	if again > 0 {
+		return 2
+	}
+	return 0
 }
